@@ -24,6 +24,10 @@
 //	                                                (after=false) or right after it, i.e. between db.Put and the post of
 //	                                                the vote (after=true). The call then returns Crashed=true and the
 //	                                                driver has already restarted the Voter on the same database.
+//	st := d.ContextViaEventLoop(round, index, step, cert)   the same delivery, but through the Voter's own Start / eventLoop / Stop:
+//	                                                the event is Posted on the mux, a second (empty) event is Posted behind it -
+//	                                                Post returns when the loop has taken it, i.e. after the first was handled -
+//	                                                and the loop is stopped again. Any armed crash point is disarmed first.
 //	d.RemoveMarkedBlock(hash)                       Voter.removeMarkedBlock (what Server.commit calls when the insert of a committed block fails)
 //	d.StartVoteQuery(round, index, chTh, houseTh)   Voter.existHashOverVotesThreshold (read-only; Proposal's "start voting early" test)
 //	d.WriteForeignRecord(kind, idx, round, index, mode)   stores, under this node's key, a record this node did not write
@@ -390,6 +394,18 @@ func verifDecode(data interface{}) VerifEvent {
 func (d *VerifVoter) Context(round *big.Int, roundIndex uint32, step uint32, cert bool) VerifStep {
 	return d.run(func() {
 		d.V.updateContext(ContextChangeEvent{Round: round, RoundIndex: roundIndex, Step: step, Certificate: cert})
+	})
+}
+
+// ContextViaEventLoop delivers a ContextChangeEvent through Voter.Start / eventLoop / Stop (see the file comment).
+func (d *VerifVoter) ContextViaEventLoop(round *big.Int, roundIndex uint32, step uint32, cert bool) VerifStep {
+	d.DB.armedAt = 0 // a panic on the loop's goroutine would kill the harness
+	return d.run(func() {
+		d.V.Start(verifParams{d})
+		d.mux.Post(ContextChangeEvent{Round: round, RoundIndex: roundIndex, Step: step, Certificate: cert})
+		// the loop handles events one at a time: when it takes this one, the context above has been handled completely
+		d.mux.Post(VoteMsgEvent{Msg: &CachedVotesMessage{VotesData: &BlockHashWithVotes{Round: round, RoundIndex: roundIndex}}, VType: Prevote})
+		d.V.Stop()
 	})
 }
 
